@@ -179,6 +179,20 @@ def run(ctx):
     r = random.Random(ctx.rng.random())
     n = ctx.n(90, 900)
     cases, meta = make_cases(r, n)
+    # what an import makes available is visible to every LATER lookup: an earlier import looks `status` up from inside namespace net and finds the
+    # outer declaration; a later import declares net.status; the importer's own reference from inside net must bind to net.status
+    for k_ in range(ctx.n(4, 16)):
+        nm, ns = r.choice(['status', 'item', 'cfg']), r.choice(['net', 'io.core'])
+        via_inc = r.random() < 0.5
+        files = {'main.pydjinni': '@import "early.pydjinni"\n@import "%s"\nnamespace %s {\n    monitor = record { s: %s; }\n}\n' % ('late.pydjinni' if not via_inc else 'late.pydjinni', ns, nm),
+                 'early.pydjinni': '%s = enum { outer_one; }\nnamespace %s {\n    probe = record { s: %s; }\n}\n' % (nm, ns, nm),
+                 ('inc/late.pydjinni' if via_inc else 'late.pydjinni'): 'namespace %s {\n    %s = record { inner_field: i32; }\n}\n' % (ns, nm)}
+        incdirs = ['inc'] if via_inc else []
+        adj, miss = reach(sorted(files), files, incdirs)
+        kind, reachable, cyc = classify(adj, 'main.pydjinni')
+        cases.append({'files': files, 'root': 'main.pydjinni', 'options': {'generate': dict(FULL, include_dirs=incdirs)}, 'timeout_s': 6,
+                      '_parts': ('errors', 'def_names', 'imports', 'refs')})
+        meta.append((kind, reachable, cyc, miss, adj, 'shadow-by-later-import'))
     mism, obs = kfront.run(ctx, 'c16', cases)
     if obs is None:
         return
@@ -219,6 +233,14 @@ def run(ctx):
                               'acyclic import graph (%s) rejected: %s' % (kind, items[0]['desc']), rep)
             continue
         got_names = sorted(d['name'] for d in o.get('defs', []))
+        if shape == 'shadow-by-later-import':
+            # the importer's reference (the last one) is bound to the record the LATER import declared inside the namespace
+            refs = [x for x in o.get('refs', []) if (x.get('pos') or {}).get('file') == c['root']]
+            b_ = refs[-1].get('bound') if refs else None
+            if not b_ or b_.get('cls') != 'Record' or not b_.get('ns'):
+                ctx.add_violation({'kind': 'import-not-visible-to-later-lookup'},
+                                  "the importer's reference from inside the namespace is bound to %s, the later import declares the closer type" % json.dumps(b_)[:200], rep)
+            continue
         if kind == 'tree':
             if got_names != expected_names:
                 ctx.add_violation({'kind': 'closure-wrong', 'decoy': any(n.startswith('decoy') for n in got_names)},
